@@ -285,7 +285,7 @@ def progress_states(r):
 def tlc_timer_cont(wd, thorough):
     w = 4 if thorough else 2
     if thorough:
-        cfg = t_cfg(wd, "tp_t_cont.cfg", maxdelay=3, conts=strs(["c1", "c2"]), raw="FALSE", maxnow=6, maxarm=4, steps=9)
+        cfg = t_cfg(wd, "tp_t_cont.cfg", maxdelay=3, conts=strs(["c1", "c2"]), raw="FALSE", maxnow=6, maxarm=3, steps=8)
     else:
         cfg = t_cfg(wd, "tp_t_cont.cfg", maxdelay=3, conts=strs(["c1", "c2"]), raw="FALSE", maxnow=5, maxarm=2, steps=5)
     r = vlib.tlc("TimerWheel", cfg, PID, workers=w, timeout=900, coverage=not thorough)
@@ -297,9 +297,9 @@ def tlc_timer_cont(wd, thorough):
 def tlc_pool(wd, thorough):
     res = []
     w = 4 if thorough else 2
-    # the cursor algebra of one buffer: the complete state graph for capacity 4 (8 in the thorough tier)
+    # the cursor algebra of one buffer: the complete state graph for capacity 4 (6 in the thorough tier)
     if thorough:
-        cfg = p_cfg(wd, "tp_p_buf.cfg", cap=8, maxdata=3, steps=100)
+        cfg = p_cfg(wd, "tp_p_buf.cfg", cap=6, maxdata=2, steps=100)
     else:
         cfg = p_cfg(wd, "tp_p_buf.cfg", steps=100)
     r = vlib.tlc("BufferPool", cfg, PID, workers=w, timeout=900, coverage=not thorough)
@@ -337,7 +337,7 @@ def collect(f):
 def timer_s2i(wd, bins, thorough):
     beh = os.path.join(wd, "tp_timer_behaviours.ndjson")
     gens = []
-    num = 160 if thorough else 20
+    num = 100 if thorough else 20
     with open(beh, "w") as f:
         for name, misuse in (("tp_t_gen.cfg", "FALSE"), ("tp_t_gen_misuse.cfg", "TRUE")):
             cfg = t_cfg(wd, name, spec="GenSpec", slots=4, maxdelay=9, toks="1, 2", conts=strs(["c1", "c2", "c3"]), maxnow=14, maxadv=3,
@@ -353,7 +353,7 @@ def timer_s2i(wd, bins, thorough):
 
 def pool_s2i(wd, bins, thorough):
     beh = os.path.join(wd, "tp_pool_behaviours.ndjson")
-    num = 120 if thorough else 15
+    num = 60 if thorough else 15
     with open(beh, "w") as f:
         cfg = p_cfg(wd, "tp_p_gen.cfg", spec="GenSpec", min=1, max=2, cap=8, alpha="1, 2, 3", maxdata=3, guards=strs(["g1", "g2", "g3"]),
                     steps=30, gen=POOL_GEN, view="", invs="EmitHist", props="")
